@@ -441,6 +441,10 @@ struct Arena {
     mbuffs: Vec<Vec<u8>>,
     /// one byte of caller memory whose address stands for "the empty packet"
     empty_anchor: Vec<u8>,
+    /// a program that stores a (changing) value into the stack slots StackLeakRead reads; run on a
+    /// VM of its own between two reference executions
+    polluter: Vec<u8>,
+    pollutions: u32,
 }
 
 pub struct Runner<'s> {
@@ -503,6 +507,16 @@ impl<'s> Runner<'s> {
             packets: sc.packets.clone(),
             mbuffs: if sc.mbuffs.is_empty() { vec![Vec::new()] } else { sc.mbuffs.clone() },
             empty_anchor: vec![0u8; 8],
+            polluter: {
+                let mut v = Vec::new();
+                for off in LEAK_SLOTS {
+                    v.extend_from_slice(&ins(STDW_IMM, 10, 0, off, 0x6b6b_6b6b));
+                }
+                v.extend_from_slice(&ins(MOV64_IMM, 0, 0, 0, 0));
+                v.extend_from_slice(&ins(EXIT, 0, 0, 0, 0));
+                v
+            },
+            pollutions: 0,
         };
         Runner {
             sc,
@@ -704,7 +718,46 @@ impl<'s> Runner<'s> {
             // the engine itself dies on this program, whatever the history
             return Err(Stop::Abort(format!("fresh VM crashed with signal {} on {}", s, engine.name())));
         }
+        // The reference must not itself depend on earlier executions - of *any* VM in this thread or
+        // process (a leak through a static or thread-local would hit the history VM and the
+        // reference alike and cancel out). For the program that reads stack slots it never wrote:
+        // let an unrelated VM store into those slots, then build the reference again and compare.
+        if engine == Engine::Interp && self.sc.progs[pid].class == Class::StackLeakRead {
+            self.pollute_interpreter_stack(offsets, pkt, mb)?;
+            let (mut vm2, _) = self.fresh_vm(pid, helpers, calc, offsets, engine)?;
+            self.restore_buffers(pkt, mb);
+            let obs2 = self.observe(&mut vm2, engine, pkt, mb);
+            drop(vm2);
+            self.restore_buffers(pkt, mb);
+            self.counters.inc("reference_rebuilt_after_foreign_execution");
+            if !Self::same_obs(&obs, &obs2) {
+                return Err(self.c10("history-dependent-result/interp".into(), at, format!("a fresh VM holding prog#{} ({}) returned {}; after an unrelated VM had executed a program that stores to its own stack, another fresh VM holding the same program returned {}: executions leak into each other across VM instances", pid, self.sc.progs[pid].class.name(), obs.outcome.short(), obs2.outcome.short())));
+            }
+        }
         Ok(Some(obs))
+    }
+
+    fn pollute_interpreter_stack(&mut self, offsets: (usize, usize), pkt: usize, mb: usize) -> Step<()> {
+        self.arena.pollutions += 1;
+        let val = 0x6b6b_0000u32 | (self.arena.pollutions & 0xffff);
+        for k in 0..LEAK_SLOTS.len() {
+            self.arena.polluter[k * 8 + 4..k * 8 + 8].copy_from_slice(&val.to_le_bytes());
+        }
+        let mut vm = match AnyVm::new(self.sc.kind, None, offsets.0, offsets.1) {
+            Ok(vm) => vm,
+            Err(o) => return Err(Stop::Abort(format!("polluter VM: new(None) -> {}", o.short()))),
+        };
+        let bytes: &[u8] = unsafe { std::slice::from_raw_parts(self.arena.polluter.as_ptr(), self.arena.polluter.len()) };
+        let o = vm.set_program(bytes, offsets.0, offsets.1);
+        if !o.is_ok() {
+            return Err(Stop::Abort(format!("polluter VM: set_program -> {}", o.short())));
+        }
+        tls(|t| t.verifier_log.clear());
+        self.restore_buffers(pkt, mb);
+        let _ = self.observe(&mut vm, Engine::Interp, pkt, mb);
+        drop(vm);
+        self.restore_buffers(pkt, mb);
+        Ok(())
     }
 
     fn same_obs(a: &ExecObs, b: &ExecObs) -> bool {
@@ -907,6 +960,30 @@ impl<'s> Runner<'s> {
                     self.counters.inc_dyn(format!("c09_checked/{}/{}/{}", kind.name(), engine.name(), prog.class.name()));
                     if v != expected {
                         return self.c09(format!("stack-top/{}", engine.name()), at, format!("{}: bytes stored at r10-512 and r10-1 read back as {:#x}, expected {:#x}{}", who, v >> 8, expected >> 8, if prog.local_call { " (a local call was made in between)" } else { "" }));
+                    }
+                }
+            }
+            Class::ProbePktReload => {
+                let idx = prog.p0 as usize;
+                if plen < prog.min_pkt || (engine == Engine::Interp && plen < idx + 8) {
+                    return None;
+                }
+                let mut word = 0u64;
+                for k in (0..prog.w as usize).rev() {
+                    word = (word << 8) | self.sc.packets[pkt][idx + k] as u64;
+                }
+                let m = if prog.w == 4 { 0xffff_ffffu64 } else { (1u64 << (8 * prog.w as u32)) - 1 };
+                let new = (word ^ RELOAD_XOR as u64) & m;
+                let expected = (new << 8) | prog.tag as u64;
+                if let Outcome::Ok(v) = obs.outcome {
+                    if v & 0xff != prog.tag as u64 || v >> (8 + 8 * prog.w as u32) != 0 {
+                        return None;
+                    }
+                    self.counters.inc("c09_pkt_checks");
+                    self.counters.inc_dyn(format!("c09_checked/{}/{}/{}", kind.name(), engine.name(), prog.class.name()));
+                    if v != expected {
+                        let stale = v == (word << 8) | prog.tag as u64;
+                        return self.c09(format!("packet-load-base/{}", engine.name()), at, format!("{}: {} bytes at packet offset {} were loaded, overwritten with {:#x} by a plain store through the packet pointer and loaded again: got {:#x}{}", who, prog.w, idx, new, v >> 8, if stale { " - the bytes from before the store" } else { "" }));
                     }
                 }
             }
